@@ -119,17 +119,19 @@ def createFirst (fs : List Factory) (st : Imports.St) (chunk : String) : Imports
 def chain (fns : List FnDef) : List Factory :=
   (fns.reverse.map Factory.function) ++ baseFactories
 
+/-- one iteration of `Tokenizer.Tokenize` -/
+def tokenizeStep (fns : List FnDef) (acc : Imports.St × List Token × Errs) (c : List Char) : Imports.St × List Token × Errs :=
+  match createFirst (chain fns) acc.1 (String.ofList c) with
+  | (st', .ok t) => (st', acc.2.1 ++ [t], acc.2.2)
+  | (st', .error e) => (st', acc.2.1, acc.2.2 ++ [e])
+
 /-- `Tokenizer.Tokenize`: every chunk is processed, errors are joined -/
 def tokenize (fns : List FnDef) (st : Imports.St) (s : String) : Imports.St × Except Errs (List Token) :=
   match Chunk.chunksE s.toList with
   | .error buff => (st, .error ["not closed token: " ++ Val.quoteStr (String.ofList buff)])
   | .ok cs =>
-    let (st', toks, errs) := cs.foldl (fun (acc : Imports.St × List Token × Errs) c =>
-      let (st, toks, errs) := acc
-      match createFirst (chain fns) st (String.ofList c) with
-      | (st', .ok t) => (st', toks ++ [t], errs)
-      | (st', .error e) => (st', toks, errs ++ [e])) (st, [], [])
-    if errs.isEmpty then (st', .ok toks) else (st', .error errs)
+    let r := cs.foldl (tokenizeStep fns) (st, [], [])
+    if r.2.2.isEmpty then (r.1, .ok r.2.1) else (r.1, .error r.2.2)
 
 /-- `Tokens.GoCode` -/
 def goCode (ts : List Token) : Except String String :=
